@@ -46,6 +46,7 @@ class IdSetWorld(object):
             f = st.create_file("bits")
             f.write(b"pad!")
             n = idsets.BitSet(xs).to_disk(f) if xs else idsets.BitSet().to_disk(f)
+            f.write(b"\xff\x01trailing data that is not part of the bit array\xff")
             f.close()
             g = st.open_file("bits")
             self.keep.append(g)
@@ -307,7 +308,12 @@ def check_idset(run, quick):
         e = t[r["l"] - 1]
         rejected.add(r["tid"])
         if not r.get("pre", True):
-            run.machinery("idset driver generated a call outside the precondition: %r" % (e,))
+            # the driver takes what it needs for preconditions (is the set empty? how far does it extend?)
+            # from the object's own iteration: a call outside the model's precondition therefore means that
+            # the object's iteration disagrees with the model
+            run.violation({"check": "idset-trace", "cls": e.get("cls", meta[r["tid"]]), "op": e["op"],
+                           "err": "iteration-disagrees-with-model"},
+                          {"trace": t, "line": r["l"], "expected": r.get("expected"), "spec_state": r.get("state")})
             continue
         sig = {"check": "idset-trace", "cls": e.get("cls", meta[r["tid"]]), "op": e["op"], "err": e["err"]}
         run.violation(sig, {"trace": t, "line": r["l"], "expected": r.get("expected"),
